@@ -53,6 +53,9 @@ class MultiVector:
             values = list(values)
 
         # Sanitize input
+        if isinstance(values, Mapping):
+            keys, values = zip(*values.items()) if values else (tuple(), list())
+            values = list(values)
         if keys is not None and not all(isinstance(k, int) for k in keys):
             keys = tuple(k if k in algebra.bin2canon else algebra.canon2bin[k] for k in keys)
         if grades is None and name and keys is not None:
@@ -74,10 +77,7 @@ class MultiVector:
                              f"those expected for a multivector of {grades=}.")
 
         # Construct a new MV on the basis of the kind of input we received.
-        if isinstance(values, Mapping):
-            keys, values = zip(*values.items()) if values else (tuple(), list())
-            values = list(values)
-        elif len(values) == len(algebra.indices_for_grades[grades]) and not keys:
+        if len(values) == len(algebra.indices_for_grades[grades]) and not keys:
             keys = algebra.indices_for_grades[grades]
         elif name and not values:
             # values was not given, but we do have a name. So we are in symbolic mode.
